@@ -18,8 +18,8 @@ func main() {
 	verif := flag.String("verif", "/verif", "verification directory (evidence, known findings)")
 	debugCmd := flag.String("debug", "", "debug command")
 	flag.Parse()
-	debug.SetGCPercent(800)
-	debug.SetMemoryLimit(10 << 30)
+	debug.SetGCPercent(400)
+	debug.SetMemoryLimit(8 << 30)
 	if t := os.Getenv("VERIF_TIER"); t != "" && *tier == "" {
 		*tier = t
 	}
@@ -202,6 +202,7 @@ func runDebug(cmd, repo string, args []string) {
 			m.in.selfEvents = true
 			m.in.noScratch = true
 			dis, und = ExploreSelf(m, sel, multi, st, 16)
+			fmt.Println("max lag seen:", maxLagSeen)
 		} else {
 			dis, und = Explore(m, sel, multi, st, 16, os.Getenv("OJGCHECK_NOREF") != "", os.Getenv("OJGCHECK_NOEVENTS") != "")
 		}
